@@ -67,7 +67,7 @@ def enumerate_sites(unit):
 
 # ---- dominating branch conditions ---------------------------------------------------------------------
 
-def dom_conditions(mir, bi, S=None):
+def dom_conditions(mir, bi, S=None, _depth=0):
     """[(normalised condition expression, value)] for switch/assert edges that dominate block bi.
     value: bool for boolean conditions, int / ('not', [ints]) for integer or discriminant switches."""
     S = S or sym.Sym(mir)
@@ -98,7 +98,44 @@ def dom_conditions(mir, bi, S=None):
         elif t["k"] == "assert" and t.get("target") in dom[bi] | {bi}:
             e = sym.norm(S.operand(t["cond"]))
             out.append((e, t["expected"], d))
+    # a branch on a flag that is only ever assigned constants (`matches!`, `a && b` lowered to a temporary):
+    # the conditions common to every assignment of the observed value hold as well
+    if _depth < 2:
+        extra = []
+        for e, v, d in out:
+            if e[0] == "var" and isinstance(v, bool):
+                for c in _flag_facts(mir, S, e[1], v, _depth):
+                    extra.append((c[0], c[1], d))
+        out.extend(x for x in extra if x not in out)
     return out
+
+
+def _flag_facts(mir, S, local, value, depth):
+    defs = []
+    for (bi, si, st) in mir.assigns().get(local, []):
+        if si == "term" or st.get("k") != "assign" or st["place"]["proj"]:
+            return []
+        rv = st["rv"]
+        if rv["k"] == "use" and rv["a"]["k"] == "const" and "bool" in rv["a"]["c"]:
+            defs.append((bi, bool(rv["a"]["c"]["bool"])))
+        else:
+            return []
+    hits = [bi for bi, b in defs if b == value]
+    if not hits:
+        return []
+    common = None
+    for bi in hits:
+        cs = {(e, _hashable(v)) for e, v, _ in dom_conditions(mir, bi, S, depth + 1)}
+        common = cs if common is None else (common & cs)
+    return [(e, _unhash(v)) for e, v in (common or ())]
+
+
+def _hashable(v):
+    return ("not", tuple(v[1])) if isinstance(v, tuple) and v and v[0] == "not" else v
+
+
+def _unhash(v):
+    return ("not", list(v[1])) if isinstance(v, tuple) and v and v[0] == "not" else v
 
 
 def is_len_of(e):
@@ -205,6 +242,13 @@ def peeked_some(conds, cur):
                 inner = x
         elif e[0] == "call" and e[1].split("::")[-1] == "map_or" and v is True and e[3][1] == ("bool", False):
             inner = e[3][0]
+        # the cursor's remaining slice is shown non-empty: first()/last()/get(0)/split_first() is Some, or !is_empty()
+        if e[0] == "call" and e[1].split("::")[-1] == "is_empty" and v is False and e[3] and e[3][0][0] == "call" and e[3][0][1].endswith("as_slice") and sym.norm(e[3][0][3][0]) == cur:
+            hits.append(d)
+            continue
+        if inner is not None and inner[0] == "call" and inner[1].split("::")[-1] in ("first", "last", "split_first", "split_last") and inner[3] and inner[3][0][0] == "call" and inner[3][0][1].endswith("as_slice") and sym.norm(inner[3][0][3][0]) == cur:
+            hits.append(d)
+            continue
         if inner is not None and inner[0] == "call" and inner[2].endswith("Iterator>::next") or (inner is not None and inner[0] == "call" and inner[1].endswith("Iterator::next")):
             src = inner[3][0]
             if src[0] == "call" and src[1].endswith("Clone::clone") and sym.norm(src[3][0]) == cur:
@@ -370,6 +414,7 @@ class Discharger:
         S = self.S(mir)
         t = s.extra["term"]
         conds = dom_conditions(mir, s.bi, S) + list(s.extra.get("extra_conds", ()))
+        conds = conds + self.callee_facts(conds)
         r = self.arith_discharge(s, S, t, conds)
         if r:
             return r
@@ -498,6 +543,15 @@ class Discharger:
                     for c, v, _ in conds:
                         if c[0] == "call" and c[1].split("::")[-1] == "is_err" and v is True and "try_push" in repr(c):
                             return "R12.5: reached only when try_push failed (queue full, hence non-empty for CAP >= 1)"
+                        if c[0] == "call" and c[1].split("::")[-1] == "is_full" and v is True and c[3] and src[0] == "call" and src[3] and sym.norm(c[3][0]) == sym.norm(src[3][0]):
+                            op = src[1].split("::")[-1]
+                            if op == "pop":
+                                return "R12.5: reached only when the queue is full (is_full), hence non-empty for CAP >= 1"
+                            if op == "try_push":
+                                doms = cfg.dominators(mir)
+                                pops = [bi for bi in doms.get(src[4], ()) if mir.blocks[bi]["term"]["k"] == "call" and facts.strip_generics(mir.blocks[bi]["term"]["callee"].get("path", "")).split("::")[-1] in ("pop", "pop_at", "remove", "swap_remove")]
+                                if pops:
+                                    return "R12.5: one entry was removed from the full queue on every path here, so one slot is free"
                 # #0 block: last byte after consuming len-1 bytes of a non-empty rest
                 if src[0] == "call" and s.body.npath.endswith("read_arbitrary_data"):
                     for c, v, _ in conds:
@@ -535,6 +589,56 @@ class Discharger:
                 return "excluded: tree::command::Todo is the documented placeholder handler that panics by design"
         return None
 
+    def callee_facts(self, conds):
+        """S: a dominating condition `helper(args) == v` on a bool-returning workspace function implies the conditions
+        common to every path on which the helper can return v (one level, arguments substituted)."""
+        out = []
+        for e, v, d in conds:
+            if e[0] != "call" or not isinstance(v, bool):
+                continue
+            body = self.unit.by_path.get(e[2]) or self.unit.by_path.get(e[1])
+            if body is None:
+                body = next((b for b in self.unit.bodies if b.npath in (e[2], e[1]) and b.kind in ("Fn", "AssocFn")), None)
+            if body is None or body.mir.local_ty(0) != "bool":
+                continue
+            for c, cv in self.bool_summary(body, v):
+                amap = {i + 1: a for i, a in enumerate(e[3])}
+
+                def sub(x):
+                    if not isinstance(x, tuple) or not x or not isinstance(x[0], str):
+                        return x
+                    if x[0] == "arg":
+                        return amap.get(x[1], x)
+                    if x[0] == "call":
+                        return ("call", x[1], x[2], tuple(sub(a) for a in x[3]), d)
+                    return tuple(sub(y) if isinstance(y, tuple) and y and isinstance(y[0], str) else (tuple(sub(z) for z in y) if isinstance(y, tuple) else y) for y in x)
+
+                out.append((sym.norm(sub(c)), cv, d))
+        return out
+
+    def bool_summary(self, body, value):
+        key = (body.npath, value)
+        if not hasattr(self, "_bsum"):
+            self._bsum = {}
+        if key in self._bsum:
+            return self._bsum[key]
+        mir = body.mir
+        S = self.S(mir)
+        blocks = []
+        for (bi, si, st) in mir.assigns().get(0, []):
+            if si != "term" and st.get("k") == "assign" and st["rv"]["k"] == "use" and st["rv"]["a"]["k"] == "const" and "bool" in st["rv"]["a"]["c"]:
+                if bool(st["rv"]["a"]["c"]["bool"]) == value:
+                    blocks.append(bi)
+            else:
+                blocks.append(bi)  # a computed result: may be either value
+        common = None
+        for bi in blocks:
+            cs = {(e, _hashable(v)) for e, v, _ in dom_conditions(mir, bi, S)}
+            common = cs if common is None else (common & cs)
+        res = [(e, _unhash(v)) for e, v in (common or ()) if not any(x[0] == "var" for x in sym.walk(e))]
+        self._bsum[key] = res
+        return res
+
     def arith_discharge(self, s, S, t, conds, subst=None):
         """A: the arithmetic obligation of the site follows from the dominating conditions and library axioms
         (difference-constraint entailment, sa/rules/arith.py) - independent of how the guard is spelled."""
@@ -542,12 +646,39 @@ class Discharger:
         mir = s.mir
         N = (lambda o: subst(sym.norm(S.operand(o)))) if subst else (lambda o: sym.norm(S.operand(o)))
         ex = lambda e: self.expand(S, e)
+
+        def stable(len_atom):
+            """the slice whose length this is cannot change between the evaluation of the length and the site: every
+            local it is rooted in is not assigned (or mutably borrowed) in any block reachable from the evaluation"""
+            from . import arith as A
+            inner = sym.norm(A.is_len_of(len_atom))
+            at = len_atom[4] if len_atom[0] == "call" else None
+            roots = [x for x in sym.walk(inner) if x[0] == "var"]
+            if any(x[0] == "call" for x in sym.walk(inner)):
+                return False
+            if not roots:
+                return True
+            if at is None:
+                return False
+            if at == -1:
+                return True
+            reach = cfg.reachable(mir, mir.succs(at)) if at >= 0 else set()
+            for r_ in roots:
+                for (bi, si, st) in mir.assigns().get(r_[1], []):
+                    if bi in reach:
+                        return False
+                for bi in reach:
+                    for st in mir.blocks[bi]["stmts"]:
+                        if st["k"] == "assign" and st["rv"]["k"] in ("ref", "rawptr") and st["rv"].get("mut", True) and st["rv"]["place"]["l"] == r_[1]:
+                            return False
+            return True
+
         if s.kind == "assert" and t["msg"] in ("Overflow(Sub)", "Overflow(Add)"):
             a, b = [N(o) for o in t["ops"]]
             aty = self.operand_ty(mir, t["ops"][0]) or self.operand_ty(mir, t["ops"][1])
             if aty not in arith.TYMAX:
                 return None
-            F = arith.build(conds, [a, b], ex, unsigned=[a, b])
+            F = arith.build(conds, [a, b], ex, unsigned=[a, b], stable=stable)
             if t["msg"] == "Overflow(Sub)":
                 if F.proves_ge(arith.untry(a), arith.untry(b)):
                     return "A: minuend >= subtrahend follows from the dominating conditions and slice axioms"
@@ -564,18 +695,35 @@ class Discharger:
                 base = args[0]
                 ln = ("call", "core::slice::len", "core::slice::len", (base,), -1)
                 if nm == "split_at":
-                    F = arith.build(conds, [ln, args[1]], ex, unsigned=[args[1]])
+                    F = arith.build(conds, [ln, args[1]], ex, unsigned=[args[1]], stable=stable)
                     if F.proves_ge(ln, arith.untry(args[1])):
                         return "A: split point <= len(slice) follows from the dominating conditions and slice axioms"
                     return None
                 rng = args[1]
+                if rng[0] == "aggr" and rng[2] and rng[2].split("::")[-1] == "RangeFull":
+                    return "A: indexing with `..` selects the whole slice"
                 if rng[0] == "aggr" and rng[2] and rng[2].split("::")[-1] in ("Range", "RangeTo", "RangeFrom"):
                     kind = rng[2].split("::")[-1]
                     lo = rng[4][0] if kind in ("Range", "RangeFrom") else ("int", 0, "usize")
                     hi = rng[4][-1] if kind in ("Range", "RangeTo") else ln
-                    F = arith.build(conds, [ln, lo, hi], ex, unsigned=[lo, hi])
+                    F = arith.build(conds, [ln, lo, hi], ex, unsigned=[lo, hi], stable=stable)
                     if F.proves_ge(ln, arith.untry(hi)) and F.proves_ge(arith.untry(hi), arith.untry(lo)):
                         return "A: range bounds lo <= hi <= len(slice) follow from the dominating conditions and slice axioms"
+            if nm in ("remove", "swap_remove") and ("alloc::vec" in path or "arrayvec" in path) and len(args) == 2:
+                # container.remove(i): i < len(container), with the container untouched since the guard
+                recv = args[0]
+                ln = ("call", "len", "len", (recv,), -1)
+                guards = [(e, v, d) for e, v, d in conds if (e[0] == "call" and e[1].split("::")[-1] in ("is_empty", "len") and e[3] and sym.norm(e[3][0]) == recv)
+                          or (e[0] == "binop" and any(x[0] == "call" and x[1].split("::")[-1] == "len" and x[3] and sym.norm(x[3][0]) == recv for x in sym.walk(e)))]
+                clean = [g for g in guards if not any(advances(mir, S, b_, recv) for b_ in blocks_between(mir, g[2], s.bi) - {s.bi})]
+                # every spelling of len(recv) in the clean guards denotes the current length
+                cl = []
+                for e, v, d in clean:
+                    e2 = tuple(e)
+                    cl.append((_rename_len(e, recv, ln), v, d))
+                F = arith.build(cl, [ln, args[1]], ex, unsigned=[args[1]])
+                if F.proves_ge(ln, arith.untry(args[1]), 1):
+                    return "A: index < len(container) from a guard on the same container, which is not modified in between"
         return None
 
     def expand(self, S, e, depth=0):
@@ -667,6 +815,25 @@ class Discharger:
             return False
         back = cfg.reachable(mir, mir.succs(s.bi), avoid=adv)
         return s.bi not in back
+
+
+def _rename_len(e, recv, ln):
+    """replace every `len(recv)` call in e by the canonical atom ln; is_empty(recv) is kept (handled by the prover)"""
+    if not isinstance(e, tuple) or not e or not isinstance(e[0], str):
+        return e
+    if e[0] == "call" and e[1].split("::")[-1] == "len" and e[3] and sym.norm(e[3][0]) == recv:
+        return ln
+    if e[0] == "call" and e[1].split("::")[-1] == "is_empty" and e[3] and sym.norm(e[3][0]) == recv:
+        return ("call", e[1], e[2], (recv,), e[4])
+    out = []
+    for x in e:
+        if isinstance(x, tuple) and x and isinstance(x[0], str):
+            out.append(_rename_len(x, recv, ln))
+        elif isinstance(x, tuple):
+            out.append(tuple(_rename_len(y, recv, ln) for y in x))
+        else:
+            out.append(x)
+    return tuple(out)
 
 
 def _subexprs(e):
